@@ -579,6 +579,12 @@ def concrete_failure(prop, m):
     if prop in ('C07', 'C08', 'C14') and wrongly_accepted:
         # accepted => authorised / admissible (Props/C07, C08, C14) holds of the model; the implementation accepted
         return True
+    if prop == 'C08' and m.get('kind') == 'result' and (m.get('impl') or '').startswith('reject:handler') and (m.get('model') or '').startswith('accept') \
+            and any(k in op for k in ('planCreate', 'planStatus', 'planLink', 'planUnlink', 'nodeStatus', 'sessEnd', 'sessStart', 'subCancel',
+                                      'provRegister', 'nodeRegister', 'planSubscribe', 'nodeSubscribe')):
+        # the converse clause: a well-formed request that meets every precondition and can be paid for is accepted
+        # (Props/C08 *_complete are about the model, which accepts); the implementation's handler refused it
+        return True
     if prop == 'C06' and wrongly_accepted and any(k in op for k in ('sessStart', 'subAllocate')):
         # an exhausted holder starting a session / a share leaving a holder below its usage or creating quota:
         # refused by the model (Props/C06 exhausted_rejected, share_never_below_used), accepted by the implementation
@@ -587,6 +593,26 @@ def concrete_failure(prop, m):
         # a demotion request the model refuses (not the owner, wrong state): accepted by the implementation, it demotes a
         # record before its deadline without its owner asking (Props/C04 *_never_early lists the only causes)
         return True
+    if prop == 'C04' and m.get('kind') == 'events':
+        # the model's status transitions are the proven ones (Props/C04 status_monotone, *_never_early, timely,
+        # pending_exact): a record the implementation moves once more, once less or to another status in the same
+        # step was demoted twice, early, late or backwards
+        ups = lambda ls: sorted(x for x in (ls or []) if 'EventUpdateStatus' in x)
+        if ups(m.get('impl')) != ups(m.get('model')):
+            return True
+    if prop == 'C04' and m.get('kind') == 'state':
+        def recs(ls):
+            out = {}
+            for x in ls or []:
+                t = x.split()
+                if len(t) > 4 and t[0] == '+S' and t[1] == 'vpn' and t[2] in ('node', 'subscription', 'session') and t[3].startswith('10'):
+                    f = dict(y.split('=', 1) for y in t[4:] if '=' in y)
+                    out[(t[2], t[3])] = (f.get('status'), f.get('statusAt'), f.get('inactiveAt'))
+            return out
+        a, b = recs(m.get('only_impl')), recs(m.get('only_model'))
+        if any(k in b and a[k] != b[k] for k in a) or any(k not in b for k in a) or any(k not in a for k in b):
+            # a stored status, status time or deadline differs (or the record exists on one side only)
+            return True
     if prop == 'C11' and wrongly_accepted and any(k in op for k in ('nodeRegister', 'nodeUpdate', 'nodeSubscribe')):
         return True
     if prop == 'C19' and m.get('kind') == 'events' and op.startswith('export'):
